@@ -1077,6 +1077,8 @@ impl GlobalData {
     }
 
     pub fn enqueue_internal(&mut self, event: Event) {
+        #[cfg(rfsm_verif)]
+        crate::verif::emit("internal_enqueued", &event.name);
         self.internalQueue.enqueue(event);
     }
 }
